@@ -54,8 +54,12 @@ CLAIM = dict(
          'factors is a BEST rank-q approximation; each TT-rank <= smallest rank whose tail energy in the unfolding of the INPUT '
          'is <= e; "exactly those ranks" for exact-rank inputs; minimality of q in the rank rule (q>1 => tail(q-1) > e^2) is '
          'tied by the bit-exact threshold stream and the search, not proved; the Frobenius norm of the full_matrix round trip as '
-         'a sum (only the entrywise transport is proved); matrix_svd belongs to C02 (searched lightly here).',
-    note='Cross-cutting families (correspondence stream f_forms / history and search clauses forms, history, pow2, herm): '
+         'a sum (only the entrywise transport is proved); matrix_svd: its theorems belong to C02; here its model (Svd.matrix_svd) is tied to the code by the stream f_matrix_svd '
+         '(replayed eigh, inner size exact, entries to 1e-9) and it is searched (best rank-q product, scale covariance).',
+    note='Scale covariance (search clause covar, every factorisation: matrix_svd, matrix_skeleton with the three give_to and rel, '
+         'svd, svd_matrix): the same data at scales 2^-40..2^40 (exact) and 1e-6..1e6 (to rounding) with e scaled alike gives the '
+         'same inner sizes / ranks and scaled products; e at geometric midpoints between tail values, decaying spectra down to '
+         '1e-6 relative. Cross-cutting families (correspondence stream f_forms / history and search clauses forms, history, pow2, herm): '
          'argument forms (dense input as int64 / int32 / uint8 / F-ordered / strided / negative-stride arrays; e as Python float / '
          'int / np.float64 / 0-d array incl. e = 0; r as int / float / np.int64 / np.int32 / np.float64 / 0-d array; rel and hermitian '
          'as bool / int / np.bool_; give_to explicit vs default; int / F-ordered / strided / mixed cores for full_matrix) must give '
@@ -92,6 +96,8 @@ HEADER = r'''
 From Coq Require Import List ZArith Floats.
 From TV Require Import Num.Ops Num.InstF Lin.Mat TT.Chain Model.Svd Model.SvdMatrix.
 Import ListNotations.
+Definition eorc (w : list float) (U : mat float) (k : nat) (_ : mat float) := (w, U).
+Definition aorc (idx : list nat) (k : nat) (_ : list float) := idx.
 Definition dm : mat float := mk_mat 0 0 [].
 Definition orc (l : list (mat float * list float * mat float)) (k : nat) (_ : mat float) := nth k l (dm, [], dm).
 Definition cty := ((Z * Z * Z) * list (list (list (Z * Z))))%type.
@@ -701,6 +707,82 @@ def correspondence(R, ctx):
                        distribution={}, first_mismatches=hist_bad[:3]))
     bad_all += hist_bad
 
+    # ---- 4c. f_matrix_svd: the eigh-based factorisation (model Svd.matrix_svd, replayed np.linalg.eigh; argsort of the
+    #          clipped square roots recomputed from the recorded eigenvalues), every scale incl. 2^-40..2^40 and 1e-6..1e6,
+    #          decaying spectra whose small singular values must be kept.  BLAS sums (A A^T, U^T A) are not reproduced
+    #          operation by operation: inner size exact, entries to 1e-9 of the factor's largest entry.
+    items, dist = [], dict(shape={}, scale={}, family={})
+    for i in range(60 * mult):
+        m, n = rng.randint(1, 6), rng.randint(1, 6)
+        fam = rng.choice(['full', 'decaying', 'decaying', 'deficient', 'zero', 'int'])
+        if fam == 'full':
+            A = g.normal(size=(m, n))
+        elif fam == 'decaying':
+            A = _decaying(g, rng, (m, n), 10.0 ** -rng.randint(2, 6))
+        elif fam == 'deficient':
+            k = rng.randint(1, max(1, min(m, n) - 1))
+            A = g.normal(size=(m, k)) @ g.normal(size=(k, n))
+        elif fam == 'zero':
+            A = np.zeros((m, n))
+        else:
+            A = g.integers(-3, 4, size=(m, n)).astype(float)
+        sc = rng.choice([1e-6, 1e-3, 1.0, 1e3, 1e6, 2.0 ** -40, 2.0 ** -20, 2.0 ** 20, 2.0 ** 40])
+        A = A * sc
+        sv = np.linalg.svd(A, compute_uv=False)
+        tails = np.sqrt(np.cumsum(sv[::-1] ** 2))[::-1]
+        pos = [t for t in tails if t > 1e-7 * max(tails[0], 1e-300)]
+        j = rng.randrange(len(pos)) if pos else 0
+        base = math.sqrt(pos[j] * (pos[j + 1] if j + 1 < len(pos) else pos[j] * 1e-2)) if pos else 1e-10
+        e = _pick_e(rng, base)
+        r = _cap(rng)
+        rec_e = []
+        orig = np.linalg.eigh
+
+        def wrapped(Cm, *a, **k):
+            out = orig(Cm, *a, **k)
+            rec_e.append((np.array(out[0], float).copy(), np.array(out[1], float).copy()))
+            return out
+        np.linalg.eigh = wrapped
+        try:
+            with np.errstate(all='ignore'):
+                U, V = tn.matrix_svd(A.copy(), e, r)
+        finally:
+            np.linalg.eigh = orig
+        w0, U0 = rec_e[0]
+        w1 = np.sqrt(np.where(w0 < 0, 0.0, w0))
+        idx = np.argsort(w1)
+        coq = (f'showUV (matrix_svd OF (eorc {_flist(w0)} {_fmat(U0)}) (aorc {C.natlist(idx)}) 0 {_fmat(A)} {_fe(e)} '
+               f'{C.zlit(int(r))})')
+        items.append(dict(coq=coq, impl=[U, V], shapes=[U.shape, V.shape],
+                          input=dict(kind='matrix_svd', A=_pack(A), e=float(e).hex(), r=float(r), tag=fam)))
+        for key, val in (('shape', f'{m}x{n}'), ('scale', sc), ('family', fam)):
+            dist[key][str(val)] = dist[key].get(str(val), 0) + 1
+
+    def cmp_uv_tol(v, impl):
+        for k, (item, M) in enumerate(zip(v, impl)):
+            a, b, dat = item[0], item[1], item[3]
+            if (a, b) != tuple(M.shape):
+                return f'factor {k}: shape {(a, b)} vs {M.shape}'
+            if M.size:
+                X = np.array(_tofloat(dat[0]), float).reshape(M.shape)
+                fin = np.isfinite(M)
+                if not np.array_equal(fin, np.isfinite(X)):
+                    return f'factor {k}: non-finite pattern differs'
+                if np.any(np.abs(X[fin] - M[fin]) > 1e-9 * max(float(np.abs(M[fin]).max(initial=0.0)), 1e-300)):
+                    return f'factor {k}: entries differ by more than 1e-9 of the largest entry'
+        return None
+    vals = C.run_cases('C03_f_matrix_svd', HEADER, [it['coq'] for it in items], chunk=20)
+    bad = []
+    for it, v in zip(items, vals):
+        R.add_distinct(('f_matrix_svd', it['input']))
+        msg = cmp_uv_tol(v, it['impl'])
+        if msg:
+            bad.append(dict(stream='f_matrix_svd', input=it['input'], message=msg))
+    R.corr.append(dict(name='f_matrix_svd', cases=len(items), mismatches=len(bad),
+                       comparison='inner size exact; entries within 1e-9 of the largest entry of the factor (BLAS summation order)',
+                       distribution=dist, first_mismatches=bad[:3]))
+    bad_all += bad
+
     # ---- 5. z_interleave (exact, instance Z)
     items = []
     dist = dict(interleave_q=[], full_matrix=0, malformed=0)
@@ -1042,9 +1124,45 @@ def _clause_history(tn, p):
     return None
 
 
+def _clause_covar(tn, p):
+    """scale covariance: the same data at scale c with e scaled alike (rel=True: e unchanged) gives the same inner sizes /
+    TT-ranks and scaled factors - exactly for c a power of two, to rounding otherwise"""
+    A, e, r, c, routine = _unpack(p['A']), float.fromhex(p['e']), p['r'], float(p['c']), p['routine']
+    exact = math.frexp(c)[0] == 0.5
+    if routine == 'skeleton' and p.get('give_to', 'm') == 'm' and math.frexp(c)[1] % 2 == 0:
+        exact = False                    # sqrt(s) on both sides: an odd power of two is not an exact rescaling of sqrt(s)
+    rel = bool(p.get('rel', False))
+    ec = e if rel else e * c
+
+    def run(M, ee):
+        if routine == 'matrix_svd':
+            return list(tn.matrix_svd(M, ee, r))
+        if routine == 'skeleton':
+            return list(tn.matrix_skeleton(M, ee, r, rel=rel, give_to=p.get('give_to', 'm')))
+        if routine == 'svd_matrix':
+            return tn.svd_matrix(M, ee, r)
+        return tn.svd(M, ee, r)
+    Y1, Yc = run(A.copy(), e), run(A * c, ec)
+    sh1, shc = [np.shape(G) for G in Y1], [np.shape(G) for G in Yc]
+    if sh1 != shc:
+        return dict(what=f'{routine}: inner sizes / ranks change when data and e are rescaled by the same factor', input=p,
+                    got=shc, expected=sh1)
+    if routine in ('matrix_svd', 'skeleton'):
+        P1, Pc = Y1[0] @ Y1[1], Yc[0] @ Yc[1]
+    else:
+        P1, Pc = _full(Y1), _full(Yc)
+    tol = 0.0 if exact else (1e-6 if routine == 'matrix_svd' else 1e-9) * float(np.linalg.norm(P1)) * c
+    if not np.all(np.isfinite(Pc)) == np.all(np.isfinite(P1)) or float(np.linalg.norm(Pc - P1 * c)) > tol:
+        return dict(what=f'{routine}: the product of the factors is not covariant under rescaling of data and e', input=p,
+                    got=float(np.linalg.norm(Pc - P1 * c)), expected=tol)
+    return None
+
+
 def _run_clause(tn, p):
     k = p['kind']
     with np.errstate(all='ignore'):
+        if k == 'covar':
+            return _clause_covar(tn, p)
         if k == 'forms':
             return _clause_forms(tn, p)
         if k == 'pow2':
@@ -1119,7 +1237,7 @@ def search(R, ctx, deep, hints):
 
     for h in hints[:20]:
         inp = h.get('input')
-        if isinstance(inp, dict) and inp.get('kind') in ('svd', 'svd_matrix', 'skeleton', 'skeleton_thr', 'forms'):
+        if isinstance(inp, dict) and inp.get('kind') in ('svd', 'svd_matrix', 'skeleton', 'skeleton_thr', 'forms', 'matrix_svd'):
             ev(inp)
     # exact thresholds (tail energy == e): diag(5,4,3): tails 5*sqrt(2), 5, 3
     for sc in (1.0, 2.0 ** -20, 2.0 ** 20):
@@ -1164,6 +1282,36 @@ def search(R, ctx, deep, hints):
         nrm = max(float(np.linalg.norm(A)), 1e-300)
         ev(dict(kind='pow2', A=_pack(A), e=(nrm * rng.choice([1e-8, 1e-3, 0.05, 0.3])).hex(), r=float(RDEF),
                 k=rng.choice([-500, -400, -300, -100, -1, 1, 100, 300, 400, 500])))
+    # scale covariance of every factorisation (2^-40..2^40 exactly, 1e-6..1e6 to rounding), e at the geometric midpoint
+    # between two consecutive tail values so that no decision sits on a threshold
+    for i in range(400 if deep else 100):
+        routine = ['matrix_svd', 'skeleton', 'matrix_svd', 'svd', 'skeleton', 'svd_matrix'][i % 6]
+        if routine == 'svd':
+            ns = _gen_shape(rng, dmax=4, nmax=4, total=120)
+        elif routine == 'svd_matrix':
+            ns = [2 ** rng.randint(1, 3)] * 2
+        else:
+            ns = [rng.randint(1, 7), rng.randint(1, 7)]
+        fam = rng.choice(['full', 'decaying', 'decaying', 'int'])
+        A = _decaying(g, rng, tuple(ns), 10.0 ** -rng.randint(2, 6)) if fam == 'decaying' else \
+            (g.normal(size=ns) if fam == 'full' else g.integers(-3, 4, size=ns).astype(float))
+        M = A.reshape(ns[0], -1)
+        sv = np.linalg.svd(M, compute_uv=False)
+        if not np.any(sv):
+            continue
+        rel = routine == 'skeleton' and i % 4 == 1
+        tails = np.sqrt(np.cumsum(sv[::-1] ** 2))[::-1] / (sv[0] if rel else 1.0)
+        pos = [t for t in tails if t > 1e-7 * tails[0]]
+        j = rng.randrange(len(pos))
+        nxt = pos[j + 1] if j + 1 < len(pos) else pos[j] * 1e-2
+        if pos[j] < 1.05 * nxt and routine in ('matrix_svd', 'skeleton'):
+            continue
+        e = math.sqrt(pos[j] * nxt)
+        c = rng.choice([2.0 ** -40, 2.0 ** -27, 2.0 ** -13, 2.0 ** -1, 2.0, 2.0 ** 13, 2.0 ** 27, 2.0 ** 40,
+                        1e-6, 1e-3, 1e3, 1e6] if routine in ('matrix_svd', 'skeleton') else
+                       [2.0 ** -40, 2.0 ** -13, 2.0 ** 13, 2.0 ** 40])
+        ev(dict(kind='covar', routine=routine, A=_pack(A), e=float(e).hex(), r=float(rng.choice([RDEF, RDEF, 2, 3])),
+                c=c, rel=rel, give_to=rng.choice(['l', 'r', 'm'])))
     # degenerate families first
     for ns in ([2, 2], [3, 1, 2], [1, 1], [2, 3, 2], [4, 1], [1, 3, 1, 2]):
         for sc in (1e-6, 1.0, 1e6):
